@@ -134,6 +134,15 @@ def locate(t, depth=0):
                 return b, off.add(w), (ln.add(w, -1) if ln is not None else None)
             else:  # value part (for take/tag/take_until it is a slice)
                 return b, off, w
+    # `x.strip_prefix(P)` = Some(&x[len(P)..]) exactly when x starts with P
+    if t[0] == "somepayload" and T.is_call(T.peel(t[1], payloads=False), r"slice::<impl \[T\]>::strip_prefix$"):
+        c = T.peel(t[1], payloads=False)
+        pre = T.const_bytes(T.peel(c[2][1]))
+        b, off, ln = locate(c[2][0], depth + 1)
+        if pre is not None:
+            k = Aff(len(pre))
+            return b, off.add(k), (ln.add(k, -1) if ln is not None else None)
+        return b, off.add(Aff(0, {("opaque", "strip_prefix"): 1})), None
     if t[0] == "call" and INDEX.search(t[1]) and len(t[2]) == 2:
         b, off, ln = locate(t[2][0], depth + 1)
         r = t[2][1]
